@@ -11,7 +11,7 @@
    took e from its queue. *)
 From Coq Require Import List ZArith Bool.
 Import ListNotations.
-From Goat Require Import Model.Client Proofs.ClientBase Proofs.ClientInv Proofs.ClientLog Proofs.ClientProps Proofs.ClientRoute Proofs.ClientNI.
+From Goat Require Import Model.Client Proofs.ClientBase Proofs.ClientInv Proofs.ClientLog Proofs.ClientProps Proofs.ClientRoute Proofs.ClientNI Proofs.ClientFin Proofs.ClientOrder.
 From Goat Require Model.Server Proofs.ServerProofs Proofs.ServerInv Proofs.ServerLive Proofs.ServerRoute.
 Open Scope Z_scope.
 
@@ -82,6 +82,32 @@ Theorem C05_route_exact : forall ls s, lrun init ls = Some s ->
     (forall e, In (EvDrop c e) (log s) -> In (EvRead e (Some c)) (log s)).
 Proof. exact C05_route_exact_l. Qed.
 Print Assumptions C05_route_exact.
+
+(* the ORDER of what RecvMsg returns (list level): in every reachable state, for every call, the messages RecvMsg has
+   returned - in the order of the returns - are a PREFIX of the bodies of the envelopes the call took for its id, in the
+   order it took them, up to its first final envelope (stream_bodies), bodies that do not unmarshal left out (they are
+   reported as errors, not messages: good); and while the stream loop is reading with nothing in its hand they are
+   exactly those. With C05_route_exact (taken is a prefix of routed, routed = what the read loop read for this call in
+   the transport's order) this is the per-call order of delivery from the wire to the caller. [pfx a b] is
+   [exists r, b = a ++ r]. *)
+Theorem C05_recv_order : forall ls s, lrun init ls = Some s ->
+  forall c k, nth_error (calls s) c = Some k ->
+    pfx (msgs c (log s)) (good (stream_bodies (taken c (log s)))) /\
+    (loop_running k = true -> s_loop k = LRead -> msgs c (log s) = good (stream_bodies (taken c (log s)))).
+Proof. exact C05_recv_order_l. Qed.
+Print Assumptions C05_recv_order.
+
+(* from the transport to the caller in one statement: what RecvMsg returned is a prefix of the good bodies, before the
+   first final envelope, of what the read loop read for this call - in the transport's order *)
+Theorem C05_wire_to_caller_order : forall ls s, lrun init ls = Some s ->
+  forall c k, nth_error (calls s) c = Some k ->
+    pfx (msgs c (log s)) (good (stream_bodies (routed c (log s)))).
+Proof.
+  intros ls s H c k Hn. destruct (C05_recv_order_l _ _ H _ _ Hn) as [P _].
+  destruct (C05_route_exact_l _ _ H _ _ Hn) as [R _]. rewrite R.
+  eapply pfx_trans; [exact P|]. apply pfx_good, sb_mono.
+Qed.
+Print Assumptions C05_wire_to_caller_order.
 
 (* ... and an index that is not a call is routed nothing and takes nothing *)
 Theorem C05_route_nobody : forall ls s, lrun init ls = Some s ->
@@ -199,3 +225,11 @@ Example C05_ex_drop : exists ls s,
   lrun init ls = Some s /\ routed 0 (log s) = [msg 1 50; msg 1 51; msg 1 52] /\ taken 0 (log s) = [msg 1 50] /\
   dropped 0 (log s) = [msg 1 52] /\ (exists k, nth_error (calls s) 0 = Some k /\ chan_q k = [msg 1 51] /\ k_reg k = false) /\ held s 0 = [].
 Proof. eexists. eexists. split. vm_compute. reflexivity. vm_compute. intuition. eexists. intuition. Qed.
+
+(* the order theorem is not vacuous: three messages (the second does not unmarshal) and the OK trailer, all read *)
+Example C05_ex_order : exists ls s,
+  run_trace [ANewStream false; ADeliver (msg 1 50); ARecv 0 false; ADeliver (msg 1 (-5)); ARecv 0 false; ADeliver (msg 1 52); ARecv 0 false;
+             ADeliver (mkEnv 1 (Some (MdOk 0)) (Some (mkSt 0 0)) None (Some (MdOk 0)) false); ARecv 0 false] = (ls, s) /\
+  lrun init ls = Some s /\ msgs 0 (log s) = [50; 52] /\ stream_bodies (taken 0 (log s)) = [50; -5; 52] /\
+  good (stream_bodies (taken 0 (log s))) = [50; 52] /\ In (EvRecvRet 0 (RErr EUnmarshal)) (log s) /\ In (EvRecvRet 0 (RErr EEof)) (log s).
+Proof. eexists. eexists. split. vm_compute. reflexivity. vm_compute. intuition. Qed.
